@@ -190,6 +190,22 @@ EqualKeys(i, j) == /\ i # j /\ Peer(st[i].cls, st[j].cls) /\ Lineage(i) # Lineag
 NoAgreementUnlessSameView ==
   \A i, j \in Inst : EqualKeys(i, j) => (SameView(i, j) /\ UsedParamsAgree(i, j))
 
+(* C02 modulo the two recorded findings (see KNOWN_FINDINGS.jsonl):            *)
+(*  F8 - parameter-only difference and a degenerate scalar;                    *)
+(*  F9 - two Symmetric ends that sent the same element get the same substitute *)
+F8Degenerate(i, j) ==
+  LET g == st[i].ps.grp  q == NToInt(GOrder(g)) IN
+  \/ NToInt(GPwScalar(g, st[i].pw)) = 0 \/ NToInt(st[i].x) % q = 0 \/ NToInt(st[j].x) % q = 0
+  \/ (st[i].cls = "S" /\ (NToInt(st[i].x) + NToInt(st[j].x)) % q = 0)
+F9SameElementSymmetric(i, j) ==
+  /\ st[i].cls = "S" /\ st[j].cls = "S" /\ st[i].out = st[j].out /\ aux[i].inb = aux[j].inb
+  /\ st[i].pw = st[j].pw /\ st[i].idA = st[j].idA /\ UsedParamsAgree(i, j)
+NoAgreementButFindings ==
+  \A i, j \in Inst : EqualKeys(i, j) =>
+     \/ SameView(i, j) /\ UsedParamsAgree(i, j)
+     \/ SameView(i, j) /\ ~UsedParamsAgree(i, j) /\ GOrder(st[i].ps.grp) = GOrder(st[j].ps.grp) /\ F8Degenerate(i, j)
+     \/ F9SameElementSymmetric(i, j)
+
 (* C07: single use                                                          *)
 AtMostOneMsg  == \A i \in Inst : aux[i].nmsg <= 1 /\ (st[i].restored => aux[i].nmsg = 0)
 AtMostOneKey  == \A i \in Inst : aux[i].nkey <= 1
